@@ -51,8 +51,15 @@ def path_join_safe(root_directory: str, filename: str):
     if ".." in parts or "." in parts:
         raise ValueError("invalid path")
 
+    root_directory = os.path.abspath(root_directory)
+
     path = os.path.join(root_directory, filename)
     path = os.path.abspath(path)
+
+    # an absolute filename replaces the root when joined: ensure that
+    # the result is the root directory or is located inside of it
+    if path != root_directory and not path.startswith(root_directory.rstrip("/") + "/"):
+        raise ValueError("invalid path")
 
     return path
 
